@@ -39,6 +39,7 @@ type Contract struct {
 	HasMod     bool
 	Resumes    []*ModItem // streams: what resuming the producer may modify
 	Flags      map[string]bool
+	Derived    []string // "derived from K1, K2": this contract is a consequence of the contracts K1, K2 (instances); proved per source
 	Uses       []string
 	Triggers   [][]*CExpr
 	Yields     string // protocol name (closures)
@@ -50,6 +51,7 @@ type Contract struct {
 	YieldsArgs []*CExpr    // "yields S(e1, e2)": the subjects of the stream the function/closure produces
 	Subjects   []string    // streams: names of the subjects (bound to the producer's YieldsArgs)
 	Records    []*GhostSet // streams: ghost variables updated at every yield (mirrored at the consumer's next/range)
+	Receives   []*GhostSet // channel protocols: ghost variables updated by the receiver at every successful receive
 	Stops      string      // streams: ghost Bool that becomes !ret after every yield
 	Tracks     []string    // streams: ghost variables reset when a producer starts and then updated only by the producer's own ghost code
 	RetProto   string // the protocol the returned function value must obey (closures implementing a factory protocol)
@@ -156,7 +158,7 @@ var clauseKW = map[string]bool{
 	"requires": true, "ensures": true, "invariant": true, "modifies": true, "decreases": true,
 	"helper": true, "inline": true, "pure": true, "nowf": true, "use": true, "protocol": true,
 	"yields": true, "param": true, "contract": true, "applies": true, "opaque": true, "entry": true, "spec": true,
-	"terminal": true, "allocates": true, "pred": true, "trigger": true, "assumed": true, "partial": true, "stream": true, "resumes": true, "refines": true, "field": true, "implements": true, "tag": true, "ghostset": true, "records": true, "stops": true, "subject": true, "methodvalue": true, "logic": true, "axiom": true, "nilrecv": true, "verify": true, "after": true, "tracks": true, "channel": true, "carries": true, "rely": true, "defines": true, "fuel": true,
+	"terminal": true, "allocates": true, "pred": true, "trigger": true, "assumed": true, "derived": true, "partial": true, "stream": true, "resumes": true, "refines": true, "field": true, "implements": true, "tag": true, "ghostset": true, "records": true, "receives": true, "stops": true, "subject": true, "methodvalue": true, "logic": true, "axiom": true, "nilrecv": true, "verify": true, "after": true, "tracks": true, "channel": true, "carries": true, "rely": true, "defines": true, "fuel": true,
 }
 
 var labelRe = regexp.MustCompile(`^([A-Za-z_][\w']*)\s*(\[[A-Za-z0-9, ]*\])?\s*:`)
@@ -337,6 +339,21 @@ func (cs *ContractSet) ParseContractLines(file string, lines []string, poss []st
 					continue
 				}
 				cur.Records = append(cur.Records, &GhostSet{Var: strings.TrimSpace(parts[0]), Text: strings.TrimSpace(parts[1]), Expr: e})
+			}
+		case "receives":
+			// receives G := expr   (channel protocols: ghost bookkeeping of the receiving goroutine)
+			if cur != nil {
+				parts := strings.SplitN(it.rest, ":=", 2)
+				if len(parts) != 2 {
+					cs.Errors = append(cs.Errors, fmt.Sprintf("%s: bad receives %q", it.pos, it.rest))
+					continue
+				}
+				e, err := ParseCExpr(strings.TrimSpace(parts[1]))
+				if err != nil {
+					cs.Errors = append(cs.Errors, fmt.Sprintf("%s: %v", it.pos, err))
+					continue
+				}
+				cur.Receives = append(cur.Receives, &GhostSet{Var: strings.TrimSpace(parts[0]), Text: strings.TrimSpace(parts[1]), Expr: e})
 			}
 		case "after":
 			// after callee: G := expr
@@ -581,6 +598,19 @@ func (cs *ContractSet) ParseContractLines(file string, lines []string, poss []st
 					continue
 				}
 				cur.Modifies = append(cur.Modifies, &ModItem{Text: m, Expr: e})
+			}
+		case "derived":
+			// derived from K1, K2, ...
+			if cur != nil {
+				rest := strings.TrimSpace(strings.TrimPrefix(strings.TrimSpace(it.rest), "from"))
+				for _, k := range strings.Split(rest, ",") {
+					if k = strings.TrimSpace(k); k != "" {
+						cur.Derived = append(cur.Derived, k)
+					}
+				}
+				if len(cur.Derived) == 0 {
+					cs.Errors = append(cs.Errors, fmt.Sprintf("%s: derived from: no source contracts", it.pos))
+				}
 			}
 		case "helper", "inline", "pure", "nowf", "opaque", "entry", "allocates", "nilrecv", "verify", "assumed", "partial":
 			if cur != nil {
